@@ -196,3 +196,190 @@ reg("C05", "MC_C05", gens.gen_c05, {}, {})
 reg("C06", "MC_C06", gens.gen_c06, {}, {})
 reg("C07", "MC_C07", gens.gen_c07, {}, {})
 reg("C08", "MC_C08", gens.gen_c08, {}, {})
+
+
+def c04_check(prop, tier, seed, replay):
+    known = vlib.known_flags()
+    build_s = vlib.build_harness()
+    d = vlib.workdir(prop)
+    known_seen, violations = {}, []
+    if replay:
+        pl = json.load(open(replay))
+        req = os.path.join(d, "req_replay.ndjson")
+        with open(req, "w") as f:
+            f.write(json.dumps(pl["header"]) + "\n")
+            for r in pl["requests"]:
+                f.write(json.dumps(r) + "\n")
+        _, res = run_and_validate(d, "replay", [req], "Trace_Core", known, 900)
+        collect(prop, res, known_seen, violations, "replay")
+        return {"known": known_seen, "violations": violations}
+    depth = 3 if tier == "quick" else 4
+    t1 = time.time()
+    out = vlib.tlc(d, "MC_C04", mc_cfg("MC_C04.cfg" if tier == "quick" else "MC_C04_thorough.cfg", []), workers=8, timeout=3000, heap="8g")
+    err, st = vlib.tlc_error(out), vlib.tlc_stats(out)
+    if err or not st:
+        raise ToolError("model checking of the ideal specification failed: %s\n%s" % (err, out[-3000:]))
+    log(f"[{prop}] TLC: agreement of the three traversals with the documented relation for {st['distinct']} patterns (depth {depth}), {time.time()-t1:.0f}s")
+    hdr, files, npats, nkeys = gens.enum_c04(depth, 8 if tier == "quick" else 16)
+    paths = []
+    for i, walks in enumerate(files):
+        p = os.path.join(d, f"req_{i}.ndjson")
+        vlib.write_requests(p, walks, {}, proj=False)
+        paths.append(p)
+    t2 = time.time()
+    nrec, res = run_and_validate(d, "table", paths, "Trace_Core", known, 3000)
+    collect(prop, res, known_seen, violations, "table")
+    log(f"[{prop}] table on the real core: {npats} patterns x {nkeys} keys, {nrec} records, {time.time()-t2:.0f}s")
+    cov = {"states": st["distinct"], "transitions": max(1, st["generated"]),
+           "traces_validated_against_impl": len(paths),
+           "samples": [{"pattern": files[0][3][1]["pat"], "requests": files[0][3][:3] + files[0][3][-3:]}],
+           "exhaustive": True, "patterns": npats, "keys": nkeys, "pairs": npats * nkeys, "trace_records_validated": nrec,
+           "explanation": "every (pattern, key) pair up to the depth: TLC evaluates the agreement of the implementation-shaped "
+                          "traversals with the documented relation on the model; the real core answers pget/pdelete/notification "
+                          "for every pair and TLC validates the recorded trace against the specification"}
+    return {"coverage": cov, "known": known_seen, "violations": violations, "assumptions": CORE_ASSUME}
+
+
+CHECKS["C04"] = c04_check
+
+
+# ----------------------------------------------------------------------------- C10 / C09: JSON persistence
+PERSIST_TRACE_CFG = """SPECIFICATION TraceSpec
+CONSTANTS
+  Dev = @DEV@
+  MaxGen = 100000
+  MaxCrashes = 100000
+@INV@
+POSTCONDITION TraceAccepted
+CHECK_DEADLOCK FALSE
+"""
+
+
+def persist_scenarios(tier, rnd):
+    """every file-system step of a flush as crash point, for every flush of a short history,
+    crash -> restart -> flush -> crash sequences, crashes inside the load chain"""
+    K = list(range(1, 17))          # 15 steps per flush in the intended design, 14 in the pinned one
+    sc = []
+    def hist(h):
+        ops = []
+        for i in range(h):
+            ops += [{"op": "flush"}, {"op": "mutate"}]
+        return ops
+    for h in range(0, 4):
+        for k in K:
+            sc.append(hist(h) + [{"op": "flush", "crash_at": k}, {"op": "crash"}, {"op": "load"}])
+    k2s = K if tier == "thorough" else [1, 2, 5, 8, 11, 13, 14, 15]
+    for h in range(0, 3):
+        for k1 in K:
+            for k2 in k2s:
+                sc.append(hist(h) + [{"op": "flush", "crash_at": k1}, {"op": "crash"}, {"op": "load"}, {"op": "mutate"},
+                                     {"op": "flush", "crash_at": k2}, {"op": "crash"}, {"op": "load"}])
+    for h in range(0, 3):
+        for k in K:
+            for j in (1, 2, 3, 4):
+                sc.append(hist(h) + [{"op": "flush", "crash_at": k}, {"op": "crash"}, {"op": "load", "crash_at": j}, {"op": "load"},
+                                     {"op": "flush"}, {"op": "crash"}, {"op": "load"}])
+    n_rand = 300 if tier == "quick" else 4000
+    for _ in range(n_rand):
+        ops = []
+        for _ in range(rnd.randint(2, 6)):
+            r = rnd.random()
+            if r < 0.3:
+                ops += [{"op": "mutate"}, {"op": "flush"}]
+            elif r < 0.8:
+                ops += [{"op": "mutate"}, {"op": "flush", "crash_at": rnd.randint(1, 16)}, {"op": "crash"},
+                        {"op": "load"} if rnd.random() < 0.8 else {"op": "load", "crash_at": rnd.randint(1, 4)}, {"op": "load"}]
+            else:
+                ops += [{"op": "crash"}, {"op": "load"}]
+        sc.append(ops)
+    return sc
+
+
+def c10_check(prop, tier, seed, replay):
+    known = [f for f in vlib.known_flags() if f == "D_TOGGLE_FIRST"]
+    build_s = vlib.build_harness()
+    d = vlib.workdir(prop)
+    known_seen, violations = {}, []
+    rnd = random.Random(seed)
+
+    def write_sc(path, scs):
+        with open(path, "w") as f:
+            f.write('{"hdr":true}\n')
+            for i, ops in enumerate(scs):
+                if i:
+                    f.write('{"op":"reset"}\n')
+                for o in ops:
+                    f.write(json.dumps(o) + "\n")
+
+    def run_files(files):
+        def one(req):
+            tr = req.replace("req_", "tr_")
+            vlib.run_harness(["persist-run", req, tr, os.path.join(d, "dirs_" + os.path.basename(req))])
+            n = sum(1 for _ in open(tr)) - 1
+            r = vlib.validate(d, "Trace_Persist", PERSIST_TRACE_CFG, tr, "INVARIANTS C10Inv", known, 1200)
+            r["req"], r["trace"], r["n"] = req, tr, n
+            return r
+        res = vlib.parallel(one, files)
+        return sum(r["n"] for r in res), res
+
+    def collect_p(results, tag):
+        for r in results:
+            if r["status"] == "known":
+                for f in (r["flags"] or known):
+                    known_seen[f] = known_seen.get(f, 0) + 1
+            elif r["status"] == "violation":
+                det = r.get("detail", {})
+                recno = rejected_recno(det)
+                payload = {"property": prop, "kind": "persist-trace", "detail": det}
+                if recno:
+                    # the scenario that contains the rejected record: cut the trace at reset records
+                    tl = open(r["trace"]).read().splitlines()
+                    nres = sum(1 for x in tl[1:recno] if '"reset"' in x)
+                    scs = open(r["req"]).read().split('{"op":"reset"}\n')
+                    body = scs[nres] if nres < len(scs) else ""
+                    payload["scenario"] = [json.loads(x) for x in body.splitlines() if x.strip() and '"hdr"' not in x]
+                    payload["observed_tail"] = [json.loads(x) for x in tl[max(1, recno - 12):recno]]
+                p = vlib.save_replay(prop, f"{tag}_{len(violations)}", payload)
+                violations.append({"replay": p, "what": det.get("rejected") or det.get("error")})
+
+    if replay:
+        pl = json.load(open(replay))
+        req = os.path.join(d, "req_replay.ndjson")
+        write_sc(req, [pl["scenario"]])
+        _, res = run_files([req])
+        collect_p(res, "replay")
+        return {"known": known_seen, "violations": violations}
+
+    t1 = time.time()
+    cfgname = "MC_C10.cfg" if tier == "quick" else "MC_C10_thorough.cfg"
+    out = vlib.tlc(d, "Persist", mc_cfg(cfgname, []), workers=8, timeout=3000, heap="8g")
+    err, st = vlib.tlc_error(out), vlib.tlc_stats(out)
+    if err or not st:
+        raise ToolError("model checking of the ideal specification failed: %s\n%s" % (err, out[-3000:]))
+    log(f"[{prop}] TLC Persist (intended design): {st['distinct']} distinct states, {st['generated']} transitions, {time.time()-t1:.0f}s")
+    scs = persist_scenarios(tier, rnd)
+    nfiles = 8
+    files = []
+    for i in range(nfiles):
+        p = os.path.join(d, f"req_{i}.ndjson")
+        write_sc(p, scs[i::nfiles])
+        files.append(p)
+    t2 = time.time()
+    nrec, res = run_files(files)
+    collect_p(res, "crash")
+    for i in range(nfiles):
+        shutil.rmtree(os.path.join(d, f"dirs_req_{i}.ndjson"), ignore_errors=True)
+    log(f"[{prop}] {len(scs)} crash scenarios on the real flush/load code, {nrec} file-system steps validated, {time.time()-t2:.0f}s")
+    cov = {"states": st["distinct"], "transitions": st["generated"], "traces_validated_against_impl": len(scs),
+           "samples": scs[70:72], "exhaustive": True, "crash_scenarios": len(scs), "trace_records_validated": nrec,
+           "explanation": "TLC explores every interleaving of mutate / flush steps / crash / load steps of the intended design within "
+                          "MaxGen/MaxCrashes; the real flush and load code is run with a crash after every file-system step (single, "
+                          "double and in-load crashes, plus random sequences); the recorded steps and recovered generations are "
+                          "validated by TLC against Persist.tla with C10Inv evaluated in every state"}
+    return {"coverage": cov, "known": known_seen, "violations": violations,
+            "assumptions": ["process-crash model: completed file operations persist in order, only *.tmp files can be torn",
+                            "a crash is simulated by unwinding out of the flush/load call right after a file-system step (hook verif::fs_step)",
+                            "content abstracted to generations (store generation in key k, registration generation in the last will)"]}
+
+
+CHECKS["C10"] = c10_check
